@@ -1433,7 +1433,7 @@ def check_srswor(case):
     want_shape = shape + tuple(tt.shape) + (T,)
     if tuple(b.shape) != want_shape:
         return "sample has shape %s, expected %s" % (tuple(b.shape), want_shape)
-    bb = b.reshape((-1,) + tuple(tt.shape) + (T,))
+    bb = b.reshape((math.prod(shape),) + tuple(tt.shape) + (T,))  # explicit: -1 is ambiguous for vectors of length 0
     for s in range(bb.size(0)):
         for pos in itertools.product(*[range(n) for n in tt.shape]):
             vec = bb[(s,) + pos].tolist()
